@@ -232,4 +232,20 @@ CLAIMS = {
               "cycles; recorded in DESIGN 5b, not decidable here)."),
         technique="static analysis: loop summary with iteration-domain and exactly-one-emit checks on feasible paths; ordered-effect check of the constructor",
     ),
+    "C09": dict(
+        text=("Claimed in part; the simulated measurement record and determinism of detectors are NOT decidable by static analysis and are not "
+              "claimed. Decided (necessary conditions of the protocol): cycle accounting -- for qec_cycles = 1..8 exactly and k+9 symbolically the "
+              "fixed repetition counts of the sub-circuits that get_circuit_qec_with_detectors adds sum to qec_cycles with every count >= 1, and "
+              "0 cycles emit one measurement per ancilla and no round; every record-offset argument of the detector / observable annotations "
+              "(last index, main / secondary target, reference / secondary offset, per block and for the final detectors under all sign cases of "
+              "the cycle thresholds) equals the pinned protocol normal form; blocks start with the right round builder (refocusing / plain) and "
+              "advance the time coordinate; the plain and refocusing round builders agree statement for statement on the gate part; the "
+              "initial-state -> gate table is exhaustive and correct, data / ancilla getters read their own container under a guard on that "
+              "container, get_operations wires data keys to data getter and data ids, ancilla keys to ancilla getter and ancilla ids; derived "
+              "descriptions and chains carry the refocusing option, which guards the echo block (Wait, Rx180, Wait per data qubit)."),
+        note=("Trusted base: the pinned offset forms (DESIGN C09.P2; they are what the golden tests and a one-off noiseless simulation showed to "
+              "be deterministic) and the physics of the state table. Not decided: record values, detector determinism, behaviour after unrolling / "
+              "flattening (C06/C11)."),
+        technique="static analysis: builder summaries (ordered emits under loops and guards), piecewise-affine region analysis of repetition counts, pinned normal forms of annotation arguments, sibling comparison",
+    ),
 }
